@@ -27,6 +27,10 @@ theorem coerceInt_branches_spec :
     coerceIntBranches = [("int", "int()"), ("float", "int-if-equal-guarded"), ("None", "raise"),
                          ("str", "int10-else-integral-float"), ("else", "raise")] ∧ floatCatchesOverflow = true := by decide
 
+/-- The guard of `value_from_ast` in front of `parse_literal`, as re-extracted: only the specified scalars and custom scalars
+    WITHOUT their own `parse_literal` are restricted to scalar literals. -/
+theorem scalarLiteralGuard_spec : customOwnParseLiteralTakesAnyLiteral = true := by decide
+
 theorem floatChecked_ok {c : FCls} {r pv : PV} (h : floatChecked c r = .ok pv) : pv = r ∧ c = .finite := by
   unfold floatChecked at h
   split at h
